@@ -363,6 +363,9 @@ class ExcelModel:
             references = self.references
             formula_ranges = self.formula_ranges(context)
             external_links = self.external_links(context)
+            for r in formula_ranges:  # Cells spilled by an array formula.
+                if (r & Ranges((rng,))).ranges:
+                    stack.append(r.ranges[0]['name'])
 
             _name = '%s'
             if 'sheet_id' in rng:
